@@ -1,0 +1,16 @@
+//go:build verif
+
+package internal
+
+import (
+	"github.com/markusressel/fan2go/internal/configuration"
+	"github.com/markusressel/fan2go/internal/controller"
+	"github.com/markusressel/fan2go/internal/fans"
+	"github.com/markusressel/fan2go/internal/persistence"
+)
+
+// VerifInitializeFanControllers lets a simulated world create the fan controllers
+// exactly the way RunDaemon does (control algorithm selection included).
+func VerifInitializeFanControllers(pers persistence.Persistence, fanMap map[configuration.FanConfig]fans.Fan) (map[fans.Fan]controller.FanController, error) {
+	return initializeFanControllers(pers, fanMap)
+}
